@@ -473,7 +473,7 @@ def counter_inv(F):
                             # through the local's initialiser
                             for a in list(srcs):
                                 for x in walk(a):
-                                    if x.get("k") == "Path" and x.get("res", {}).get("r") == "local":
+                                    if x.get("k") == "Path" and x.get("res", {}).get("r") == "local" and "module_imports::Import" in (x.get("ty") or ""):
                                         _p, scr_, _k = _bs(fn["body"], x["res"]["hid"])
                                         if scr_ is not None and all(scr_ is not y for y in srcs):
                                             srcs.append(scr_)
